@@ -209,18 +209,20 @@ func TestChunkinfoReqResp(t *testing.T) {
 		addReq("req-req-"+nb.Name, &cipb.ChunkInfoReq{RootCid: R.Bytes(), Target: self.Bytes(), Req: nb.B})
 	}
 	reqs = append(reqs, in{"req-fields-as-varint", (&pbench.PB{}).Varint(1, 1).Varint(2, 1).Varint(3, 1).Framed()})
-	runEndpoint(t, run, endpoint{
-		name:       "chunkinfo.req",
-		valid:      [][]byte{pbench.Frame(&cipb.ChunkInfoReq{RootCid: R.Bytes(), Target: self.Bytes(), Req: peerX.Bytes()})},
-		structured: reqs,
-		drive: func(b []byte, step stepFn) error {
-			n := withFile(nil)
-			h := handlerOf(t, n.ci.Protocol(), "chunkinforeq")
-			ctx, cancel := context.WithTimeout(context.Background(), 20*time.Second)
-			defer cancel()
-			return h(ctx, fullPeer(peerX), pbench.NewStream(b))
-		},
-	}, run.N(40, 400))
+	runReq := func() {
+		runEndpoint(t, run, endpoint{
+			name:       "chunkinfo.req",
+			valid:      [][]byte{pbench.Frame(&cipb.ChunkInfoReq{RootCid: R.Bytes(), Target: self.Bytes(), Req: peerX.Bytes()})},
+			structured: reqs,
+			drive: func(b []byte, step stepFn) error {
+				n := withFile(nil)
+				h := handlerOf(t, n.ci.Protocol(), "chunkinforeq")
+				ctx, cancel := context.WithTimeout(context.Background(), 20*time.Second)
+				defer cancel()
+				return h(ctx, fullPeer(peerX), pbench.NewStream(b))
+			},
+		}, run.N(40, 400))
+	}
 
 	// ---- chunkinforesp -------------------------------------------------------------------
 	good := bitvecFor(nChunks, 0xff)
@@ -250,13 +252,13 @@ func TestChunkinfoReqResp(t *testing.T) {
 		addResp("resp-root-"+nb.Name, resp(nb.B, peerX, self, map[string][]byte{peerX.String(): good}))
 		addResp("resp-target-"+nb.Name, pbench.Frame(&cipb.ChunkInfoResp{RootCid: R.Bytes(), Target: nb.B, Req: self.Bytes(), Presence: map[string][]byte{hex.EncodeToString(nb.B): good}}))
 	}
-	addResp("resp-presence-entry-without-value", (&pbench.PB{}).Bytes(1, R.Bytes()).Bytes(2, peerX.Bytes()).Bytes(3, self.Bytes()).MapEntry(4, peerX.String(), nil).Framed())
 	addResp("resp-presence-entry-empty", (&pbench.PB{}).Bytes(1, R.Bytes()).Bytes(2, peerX.Bytes()).Bytes(3, self.Bytes()).Msg(4, &pbench.PB{}).Framed())
 	addResp("resp-presence-duplicate-keys", (&pbench.PB{}).Bytes(1, R.Bytes()).Bytes(2, peerX.Bytes()).Bytes(3, self.Bytes()).MapEntry(4, peerX.String(), good).MapEntry(4, peerX.String(), bitvecFor(64, 1)).Framed())
 	// the inputs predicted to crash: a short bit vector for the answering overlay, and keys
 	// that are not hex addresses
 	crashers := []in{
 		{"resp-bitvector-empty", resp(R.Bytes(), peerX, self, map[string][]byte{peerX.String(): {}})},
+		{"resp-presence-entry-without-value", (&pbench.PB{}).Bytes(1, R.Bytes()).Bytes(2, peerX.Bytes()).Bytes(3, self.Bytes()).MapEntry(4, peerX.String(), nil).Framed()},
 		{"resp-key-not-hex", resp(R.Bytes(), peerX, self, map[string][]byte{"zz-not-hex": good, peerX.String(): good})},
 		{"resp-key-odd-hex", resp(R.Bytes(), peerX, self, map[string][]byte{"abc": good, peerX.String(): good})},
 	}
@@ -269,7 +271,8 @@ func TestChunkinfoReqResp(t *testing.T) {
 		runEndpoint(t, run, endpoint{
 			name:       "chunkinfo.resp+" + st,
 			valid:      valid,
-			structured: append(append([]in(nil), resps...), crashers...),
+			early:      crashers,
+			structured: resps,
 			drive: func(b []byte, step stepFn) error {
 				var n *ciNode
 				var res chan bool
@@ -298,8 +301,9 @@ func TestChunkinfoReqResp(t *testing.T) {
 				}
 				return err
 			},
-		}, run.N(30, 300))
+		}, run.N(20, 300))
 	}
+	runReq()
 }
 
 func TestChunkinfoPyramid(t *testing.T) {
@@ -410,6 +414,27 @@ func TestChunkinfoPyramid(t *testing.T) {
 			out = append(out, pbench.Frame(&cipb.ChunkPyramidResp{Ok: true})...)
 			add("extra-valid-unrelated-entry", out)
 		}
+		for _, k := range keys {
+			// an entry zero-padded to the BMT capacity (same hash) with or without bytes past it
+			v := py[k]
+			if len(v) >= chunkSize+8 {
+				continue
+			}
+			tag := "non-root"
+			if k == f.f.root.String() {
+				tag = "root"
+			}
+			pad := make([]byte, chunkSize+8-len(v))
+			m := clonePy(py)
+			m[k] = pbench.Cat(v, pad)
+			add(tag+"-entry-zero-padded-to-capacity", pyramidReply(keys, m, true))
+			m2 := clonePy(py)
+			m2[k] = pbench.Cat(v, pad, rnd(gen, 64))
+			add(tag+"-entry-zero-padded-plus-64-junk", pyramidReply(keys, m2, true))
+			m3 := clonePy(py)
+			m3[k] = pbench.Cat(v, make([]byte, 32))
+			add(tag+"-entry-extended-32-zero-bytes", pyramidReply(keys, m3, true))
+		}
 		add("entry-hash-absent", pbench.Cat(pbench.Frame(&cipb.ChunkPyramidResp{Chunk: py[f.f.root.String()]}), pyramidReply(keys, py, true)))
 		add("entry-chunk-absent", pbench.Cat(pbench.Frame(&cipb.ChunkPyramidResp{Hash: f.f.root.Bytes()}), pbench.Frame(&cipb.ChunkPyramidResp{Ok: true})))
 	}
@@ -445,8 +470,28 @@ func TestChunkinfoPyramid(t *testing.T) {
 		}
 		reps = append(reps, r)
 	}
+	// a manifest root node cut inside its 32-byte fork index and re-hashed: the manifest
+	// library slices past the end of it (observed in the unchanged tree as a crash in a
+	// goroutine when the stored node is re-read)
+	var early []reply
+	{
+		rk := dir.root.String()
+		h := dir.pyramid[rk][8:]
+		refSize := int(h[63] ^ h[31])
+		for _, k := range []int{1, 16, 31} {
+			cut := 64 + refSize + k
+			if cut >= len(h) {
+				continue
+			}
+			a, d := pbench.CAC(uint64(cut), h[:cut])
+			m := clonePy(dir.pyramid)
+			delete(m, rk)
+			m[hex.EncodeToString(a)] = d
+			early = append(early, reply{fmt.Sprintf("dir-root-node-cut-in-fork-index+%d", k), boson.NewAddress(a), nil, pyramidReply(pbench.SortedKeys(m), m, true)})
+		}
+	}
 	// a manifest root whose node data is damaged but re-hashed (a publisher can do that)
-	for i := 0; i < run.N(12, 120); i++ {
+	for i := 0; i < run.N(6, 120); i++ {
 		m := clonePy(dir.pyramid)
 		rk := dir.root.String()
 		d := append([]byte(nil), m[rk]...)
@@ -468,9 +513,13 @@ func TestChunkinfoPyramid(t *testing.T) {
 		m[nk] = d
 		reps = append(reps, reply{"dir-root-node-damaged-rehashed", boson.NewAddress(a), nil, pyramidReply(pbench.SortedKeys(m), m, true)})
 	}
-	var structured []in
+	var structured, earlyIn []in
 	for i, r := range reps {
 		structured = append(structured, in{fmt.Sprintf("%s#%d", r.class, i), r.b})
+	}
+	for _, r := range early {
+		earlyIn = append(earlyIn, in{r.class, r.b})
+		reps = append(reps, r)
 	}
 	var late []in
 	for i, r := range lateHang {
@@ -491,6 +540,7 @@ func TestChunkinfoPyramid(t *testing.T) {
 	runEndpoint(t, run, endpoint{
 		name:       "chunkinfo.pyramid-reply",
 		valid:      [][]byte{pyramidReply(pbench.SortedKeys(three.pyramid), three.pyramid, true)},
+		early:      earlyIn,
 		structured: structured,
 		late:       late,
 		drive: func(b []byte, step stepFn) error {
